@@ -16,7 +16,7 @@ import (
 func init() { register("C02", true, checkC02) }
 
 func checkC02(p *Prog, r *Report) {
-	r.Explain("LOOP: every natural loop in the library functions reachable from the decode entry points must fall into one accepted class, decided structurally: (counted) an integer phi that E3 proves strictly increasing/decreasing on every back edge and that an exit test compares with a loop-invariant bound; (slice) a slice phi re-sliced by a provably positive amount with an exit test on its length; (window) a strictly growing size handed to Peek whose error leaves the loop; (chain) a pointer walking a parent link that is only ever set on freshly created nodes; (consumer) every cyclic path passes a call that consumes input by a provably positive amount — a reader primitive or a library function whose every non-failing path does — and the loop has an exit on a reader error; (tag queue) exif2.readIfd, whose ranking argument over the pending-tag buffer is re-checked through its two structural side conditions. RECUR: every call-graph cycle among those functions is a guarded depth-counted recursion or a parent-chain delegation. SEEKFWD: every Seek is a position query, a forward relative seek, an absolute seek outside any loop, or not on a cyclic path. The numeric bound on bytes requested and CPU time are consequences not derived here.")
+	r.Explain("LOOP: every natural loop in the library functions reachable from the decode entry points must fall into one accepted class, decided structurally: (counted) an integer phi that E3 proves strictly increasing/decreasing on every back edge and that an exit test compares with a loop-invariant bound; (slice) a slice phi re-sliced by a provably positive amount with an exit test on its length; (window) a strictly growing size handed to Peek whose error leaves the loop; (chain) a pointer walking a parent link that is only ever set on freshly created nodes; (consumer) every cyclic path passes a call that consumes input by a provably positive amount — a reader primitive or a library function whose every non-failing path does — and the loop has an exit on a reader error; (tag queue) exif2.readIfd, whose ranking argument over the pending-tag buffer is re-checked through its two structural side conditions. RECUR: every call-graph cycle among those functions is a guarded depth-counted recursion or a parent-chain delegation. READ0: every return of a library Read method is a non-nil error, the forwarded (n, err) of an underlying Read, a positive count, or (0, nil) only under len(p) == 0 of the caller's buffer — so standard fill loops (io.ReadAll) cannot spin on it. SEEKFWD: every Seek is a position query, a forward relative seek, an absolute seek outside any loop, or not on a cyclic path. The numeric bound on bytes requested and CPU time are consequences not derived here.")
 	r.Trusted("bufio.Reader.Discard(n) with a nil error consumed n bytes; ReadSlice/ReadByte consume at least one byte or fail; Peek(n) fails once n exceeds the buffer or the remaining input", "io.Reader.Read returns n > 0 or an error for a non-empty buffer", "once the underlying reader fails, later Peeks of at least the same size fail too")
 	dec, err := p.DecEntries()
 	if err != nil {
@@ -29,6 +29,8 @@ func checkC02(p *Prog, r *Report) {
 	ruleLoop(p, r, fs, pa)
 	ruleRecur(p, r, fs)
 	ruleSeekFwd(p, r, fs)
+	ruleRead0(p, r, fs)
+	r.Floor("READ0", 1)
 	r.Floor("LOOP", 30)
 	r.Floor("RECUR", 2)
 	r.Floor("SEEKFWD", 2)
@@ -485,6 +487,10 @@ func classifyLoop(p *Prog, pa *progAnalysis, f *ssa.Function, l *Loop) (string, 
 					return "window: " + w, ""
 				}
 			}
+			if windowWhy != "" {
+				whys = append(whys, windowWhy)
+				windowWhy = ""
+			}
 			whys = append(whys, fmt.Sprintf("%s is monotone but no exit test compares it with a loop-invariant bound", shortVal(phi)))
 		case sliceLike(phi.Type()):
 			shr := true
@@ -650,6 +656,85 @@ func condOnError(v ssa.Value, d int) bool {
 
 // windowGrowth: phi is handed (possibly scaled/offset, coefficient > 0) to a Peek-like call in the loop and the
 // loop has a return/exit dominated by that call's error being non-nil.
+var windowWhy string
+
+// peekWrapperSwallows: g wraps a Peek; "" if every return of g with a nil error is either the underlying call's own
+// error passed on or a nil under `underlying err == io.EOF` (a short window at the end of the input). Anything else
+// can turn bufio.ErrBufferFull — the refusal the growing-window loops rely on — into success.
+func peekWrapperSwallows(p *Prog, g *ssa.Function, depth int) string {
+	if g.Blocks == nil || depth > 3 {
+		return "its body is not available"
+	}
+	var under *ssa.Call
+	eachCall(g, func(site ssa.CallInstruction) {
+		c, ok := site.(*ssa.Call)
+		if !ok {
+			return
+		}
+		name := ""
+		if c.Call.IsInvoke() {
+			name = c.Call.Method.Name()
+		} else if sc := c.Call.StaticCallee(); sc != nil {
+			name = sc.Name()
+		}
+		if name == "Peek" || name == "peek" {
+			under = c
+		}
+	})
+	if under == nil {
+		return "it does not call a Peek"
+	}
+	if sc := under.Call.StaticCallee(); sc != nil && isRepoFn(sc) {
+		if why := peekWrapperSwallows(p, sc, depth+1); why != "" {
+			return why
+		}
+	}
+	ue := tupleExtract(under, 1)
+	if ue == nil {
+		return "the error of the underlying Peek is dropped"
+	}
+	ei := g.Signature.Results().Len() - 1
+	bad := ""
+	eachInstr(g, func(b *ssa.BasicBlock, _ int, in ssa.Instruction) {
+		ret, ok := in.(*ssa.Return)
+		if !ok || bad != "" {
+			return
+		}
+		ev, eb := spilledResult(ret.Results[ei], b)
+		if ev == ssa.Value(ue) {
+			return
+		}
+		if !isNilConst(ev) {
+			// some other error value: fine as long as it is an error
+			if p.E3().definitelyNonNil(ev, eb) {
+				return
+			}
+			bad = fmt.Sprintf("the return at %s yields an error value that is not the underlying one", p.posStr(instrPos(ret)))
+			return
+		}
+		okEOF := false
+		for _, cd := range condsAt(eb) {
+			bo, isBo := cd.V.(*ssa.BinOp)
+			if !isBo || bo.Op != token.EQL || !cd.True {
+				continue
+			}
+			for _, pr := range [][2]ssa.Value{{bo.X, bo.Y}, {bo.Y, bo.X}} {
+				if pr[0] == ssa.Value(ue) {
+					if gl := loadOfGlobal(pr[1]); gl != nil && gl.Pkg != nil && gl.Pkg.Pkg.Path() == "io" && gl.Name() == "EOF" {
+						okEOF = true
+					}
+				}
+			}
+		}
+		if !okEOF {
+			bad = fmt.Sprintf("the return at %s reports success although the underlying Peek failed with something other than io.EOF (bufio.ErrBufferFull is swallowed)", p.posStr(instrPos(ret)))
+		}
+	})
+	// a nil return on the path where the underlying call itself succeeded is the forwarded value (ue == nil there): the
+	// wrapper returns `buf, err` unchanged on that path, which the first test accepts
+	return bad
+}
+
 func windowGrowth(p *Prog, l *Loop, phi *ssa.Phi) string {
 	for b := range l.Blocks {
 		for _, in := range b.Instrs {
@@ -671,6 +756,13 @@ func windowGrowth(p *Prog, l *Loop, phi *ssa.Phi) string {
 			a := affineWide(n)
 			if a == nil || a.coef(phi) <= 0 {
 				continue
+			}
+			// a library wrapper around Peek must pass bufio's refusal on, or the growth never ends the loop
+			if sc := c.Call.StaticCallee(); sc != nil && isRepoFn(sc) {
+				if why := peekWrapperSwallows(p, sc, 0); why != "" {
+					windowWhy = fmt.Sprintf("%s is the growing size of %s, but %s", shortVal(phi), fnName(sc), why)
+					continue
+				}
 			}
 			errX := tupleExtract(c, 1)
 			if errX == nil {
@@ -1338,4 +1430,81 @@ func spilledResult(v ssa.Value, b *ssa.BasicBlock) (ssa.Value, *ssa.BasicBlock) 
 		cur = cur.Preds[0]
 	}
 	return v, b
+}
+
+// ---- READ0: library readers never report "nothing read, no error" -----------------------------------------------
+
+// ruleRead0: io.ReadAll, io.Copy and every fill loop spin for ever on a reader that keeps returning (0, nil) for a
+// non-empty buffer. Every return of a library Read method must therefore be one of: a non-nil error; the count and
+// error of an underlying Read passed on together; a count proved positive; or (0, nil) under len(p) == 0 of the
+// caller's own buffer (not of a truncated copy of it).
+func ruleRead0(p *Prog, r *Report, fs []*ssa.Function) {
+	e := p.E3()
+	for _, f := range fs {
+		if f.Name() != "Read" || f.Signature.Recv() == nil || len(f.Params) != 2 || f.Signature.Results().Len() != 2 {
+			continue
+		}
+		if _, ok := f.Params[1].Type().Underlying().(*types.Slice); !ok || !isErrorType(f.Signature.Results().At(1).Type()) {
+			continue
+		}
+		key := fnName(f) + " | never returns (0, nil) for a non-empty buffer"
+		bad := ""
+		nRet := 0
+		eachInstr(f, func(b *ssa.BasicBlock, _ int, in ssa.Instruction) {
+			ret, ok := in.(*ssa.Return)
+			if !ok || len(ret.Results) != 2 {
+				return
+			}
+			nRet++
+			nv, nb := spilledResult(ret.Results[0], b)
+			ev, eb := spilledResult(ret.Results[1], b)
+			if e.definitelyNonNil(ev, eb) {
+				return
+			}
+			// forwarded pair
+			if xn, ok := nv.(*ssa.Extract); ok {
+				if xe, ok := ev.(*ssa.Extract); ok && xn.Tuple == xe.Tuple && xn.Index == 0 && xe.Index == 1 {
+					if c, ok := xn.Tuple.(*ssa.Call); ok {
+						nm := ""
+						if c.Call.IsInvoke() {
+							nm = c.Call.Method.Name()
+						} else if sc := c.Call.StaticCallee(); sc != nil {
+							nm = sc.Name()
+						}
+						if nm == "Read" {
+							return
+						}
+					}
+				}
+			}
+			if e.ProveLE(nb, zeroT, e.termOf(nv), -1) {
+				return
+			}
+			// (0, nil) only for an empty buffer of the caller
+			for _, cd := range condsAt(b) {
+				bo, ok := cd.V.(*ssa.BinOp)
+				if !ok || !cd.True || bo.Op != token.EQL {
+					continue
+				}
+				for _, pr := range [][2]ssa.Value{{bo.X, bo.Y}, {bo.Y, bo.X}} {
+					if k, ok := constInt(pr[1]); ok && k == 0 {
+						if c, ok := pr[0].(*ssa.Call); ok {
+							if bi, ok := c.Call.Value.(*ssa.Builtin); ok && bi.Name() == "len" && c.Call.Args[0] == ssa.Value(f.Params[1]) {
+								return
+							}
+						}
+					}
+				}
+			}
+			bad = fmt.Sprintf("the return at %s can report a zero count with a nil error for a non-empty buffer: io.ReadAll and every fill loop then spin without consuming input", p.posStr(instrPos(ret)))
+		})
+		if nRet == 0 {
+			continue
+		}
+		if bad != "" {
+			r.Bad("READ0", key, p.posStr(f.Pos()), bad)
+		} else {
+			r.OK("READ0", key, p.posStr(f.Pos()), fmt.Sprintf("%d returns: error, forwarded (n, err) of the underlying Read, positive count, or empty caller buffer", nRet))
+		}
+	}
 }
